@@ -75,6 +75,8 @@ class Poly:
         return r
 
     def inv(self):
+        if not self.t:
+            return Poly.atom(('opaque', '1/0'))
         if self.is_const() and self.const_value() != 0:
             return Poly.const(1 / self.const_value())
         # single monomial: invert factor-wise
@@ -188,6 +190,7 @@ class Env:
     def __init__(self, parent=None):
         self.vals = dict(parent.vals) if parent else {}
         self.sym_of = dict(parent.sym_of) if parent else {}   # local id -> symbol name override
+        self.killed = set(parent.killed) if parent else set()  # tracked locals mutated out of view
 
     def bind(self, local, value):
         self.vals[local] = value
@@ -292,13 +295,18 @@ def read_block(blk, env):
         if s['k'] == 'Let':
             if 'init' not in s:
                 continue
+            for lid in _assigned_tracked(s['init'], env):
+                env.vals.pop(lid, None)
+                env.killed.add(lid)
             bind_pat(s['pat'], s['init'], env)
         elif s['k'] in ('Semi', 'Expr'):
             x = s['e']
             if x.get('k') == 'AssignOp' and x['ch'][0].get('res') == 'local' and \
-                    x['ch'][0]['local'] in env.vals:
+                    (x['ch'][0]['local'] in env.vals or x['ch'][0]['local'] in env.killed):
                 lid = x['ch'][0]['local']
-                cur = env.vals[lid]
+                cur = env.vals.get(lid)
+                if cur is None:
+                    cur = Poly.atom(('sym', env.sym_of.get(lid, x['ch'][0]['name'])))
                 rhs = norm(x['ch'][1], env)
                 op = x['op']
                 if op == 'AddAssign':
@@ -312,35 +320,49 @@ def read_block(blk, env):
                 else:
                     return False
             elif x.get('k') == 'Assign' and x['ch'][0].get('res') == 'local' and \
-                    x['ch'][0]['local'] in env.vals:
+                    (x['ch'][0]['local'] in env.vals or x['ch'][0]['local'] in env.killed):
                 env.vals[x['ch'][0]['local']] = norm(x['ch'][1], env)
             else:
                 # other statements do not change block-local bindings we track,
-                # unless they assign to one inside a nested construct
-                if _assigns_tracked(x, env):
-                    return False
+                # unless they assign to one inside a nested construct: those become opaque
+                killed = _assigned_tracked(x, env)
+                for lid in killed:
+                    env.vals.pop(lid, None)
+                    env.killed.add(lid)
     return True
 
 
-def _assigns_tracked(x, env):
+def _assigned_tracked(x, env):
     from facts import walk
+    out = set()
     for n in walk(x):
         if n.get('k') in ('Assign', 'AssignOp') and n['ch'][0].get('res') == 'local' and \
                 n['ch'][0]['local'] in env.vals:
-            return True
-    return False
+            out.add(n['ch'][0]['local'])
+    return out
+
+
+def _assigns_tracked(x, env):
+    return bool(_assigned_tracked(x, env))
 
 
 def bind_pat(pat, init, env):
     k = pat.get('k')
     if k == 'Binding':
-        env.bind(pat['local'], norm(init, env))
+        v = norm(init, env)
+        ats = list(v.atoms())
+        if len(ats) == 1 and ats[0][0] == 'fn' and '|' in str(ats[0]) and v == Poly.atom(ats[0]):
+            # result of a call taking a closure: opaque, keep the variable's own name
+            env.vals.pop(pat['local'], None)
+            return
+        env.bind(pat['local'], v)
     elif k == 'Tuple' and peel(init).get('k') == 'Tup' and len(pat['ch']) == len(peel(init)['ch']):
         vals = [norm(x, env) for x in peel(init)['ch']]
         for p, v in zip(pat['ch'], vals):
             if p.get('k') == 'Binding':
                 env.bind(p['local'], v)
     else:
+        # destructured from an opaque value: the names themselves are the symbols
         from facts import _pat_binds
         for b in _pat_binds(pat):
-            env.bind(b['local'], Poly.atom(('opaque', 'pat:%s:%s' % (b['name'], src(init)))))
+            env.vals.pop(b['local'], None)
